@@ -211,6 +211,43 @@ class _Clock:
         return self.now
 
 
+class _Hooks:
+    """Application hooks: record an event, never raise, never send."""
+
+    async def on_message(self, msg):
+        ad = self._verif_ad
+        ad.events.append([1, ad.msg_proj(msg)])
+
+    async def on_connect(self):
+        pass
+
+    async def on_disconnect(self):
+        self._verif_ad.events.append([4])
+
+    async def on_logon(self, is_healthy):
+        self._verif_ad.events.append([2, 1 if is_healthy else 0])
+
+    async def on_logout(self, msg):
+        self._verif_ad.events.append([3])
+
+    async def on_state_change(self, connection_state):
+        self._verif_ad.events.append([5, int(connection_state)])
+
+    async def should_replay(self, historical_replay_msg):
+        return int(historical_replay_msg[34]) not in self._verif_ad.declined
+
+
+_REC = {}
+
+
+def _rec_class(role):
+    if role not in _REC:
+        from asyncfix import AsyncFIXClient, AsyncFIXDummyServer
+        base = AsyncFIXClient if role == 1 else AsyncFIXDummyServer
+        _REC[role] = type("Rec" + base.__name__, (_Hooks, base), {})
+    return _REC[role]
+
+
 class Adapter:
     """One connection under test."""
 
@@ -232,38 +269,15 @@ class Adapter:
         from asyncfix.codec import Codec
         from asyncfix.protocol import FIXProtocol44
         Adapter.patch()
+        self.recording = True
         self.events = []
         self.declined = set(declined)
-        ad = self
-
-        class Hooks:
-            async def on_message(self, msg):
-                ad.events.append([1, ad.msg_proj(msg)])
-
-            async def on_connect(self):
-                pass
-
-            async def on_disconnect(self):
-                ad.events.append([4])
-
-            async def on_logon(self, is_healthy):
-                ad.events.append([2, 1 if is_healthy else 0])
-
-            async def on_logout(self, msg):
-                ad.events.append([3])
-
-            async def on_state_change(self, connection_state):
-                ad.events.append([5, int(connection_state)])
-
-            async def should_replay(self, historical_replay_msg):
-                return int(historical_replay_msg[34]) not in ad.declined
-
-        base = AsyncFIXClient if role == 1 else AsyncFIXDummyServer
-        cls = type("Rec" + base.__name__, (Hooks, base), {})
+        cls = _rec_class(role)
         self.proto = FIXProtocol44()
         self.codec = Codec(self.proto)
         self.journal = Journaler()
         self.conn = cls(self.proto, SENDER, TARGET, self.journal, "localhost", 0, heartbeat_period=30, logger=_quiet)
+        self.conn._verif_ad = self
         self.attach_writer()
         self.conn._socket_reader = object()
         self.conn._connection_state = self.state_enum(ST["NCE"])
@@ -283,7 +297,8 @@ class Adapter:
         self.conn._socket_writer = FakeWriter(self._on_write)
 
     def _on_write(self, data):
-        self.events.append([0, self.wire_proj(data)])
+        if self.recording:
+            self.events.append([0, self.wire_proj(data)])
 
     def set_world(self, st=None, role=None, nin=None, nout=None, maxres=None, treq="keep", wasact=None,
                   lastt=None, wr=None):
@@ -357,11 +372,19 @@ class Adapter:
         p = self.plain(msg)
         return msg_codes(p) if p is not None else [[63], []]
 
+    _wire_cache = {}
+
     def wire_proj(self, data, coded=True):
-        m, _, _ = self.codec.decode(data, silent=False)
-        p = self.plain(m)
-        p = [p[0], [tv for tv in p[1] if tv[0] not in ("8", "9", "35", "10")]]
-        return msg_codes(p) if coded else p
+        """written / journaled frame -> [type, fields without 8, 9, 35, 10] via the real decoder (memoised per frame)"""
+        hit = Adapter._wire_cache.get(data)
+        if hit is None:
+            m, _, _ = self.codec.decode(data, silent=False)
+            p = self.plain(m)
+            p = [p[0], [tv for tv in p[1] if tv[0] not in ("8", "9", "35", "10")]]
+            hit = (p, msg_codes(p))
+            if len(Adapter._wire_cache) < 20000:
+                Adapter._wire_cache[data] = hit
+        return hit[1] if coded else hit[0]
 
     # --- operations -----------------------------------------------------------------------
     def decode(self, frame):
@@ -387,16 +410,18 @@ class Adapter:
         elif k == 3:
             await c.disconnect(self.state_enum(op[1]), logout_message=op[2])
 
-    def run_op(self, loop, op, frame=None, timeout=20):
+    async def run_op(self, op, frame=None, project=True):
         """Execute one operation; returns the step projection [outcome, events, wproj]."""
         self.events = []
+        self.recording = project
         outcome = 0
         try:
-            loop.run_until_complete(asyncio.wait_for(self._op(op, frame), timeout))
-        except asyncio.TimeoutError:
-            outcome = [98, "timeout"]
+            await self._op(op, frame)
         except Exception as e:  # noqa: BLE001 - the class of whatever escapes is the observation
             outcome = exc_code(e)
+        self.recording = True
+        if not project:
+            return None, None
         w = self.world(rows=False)
         return [outcome, self.events, wproj_of(w)], w
 
@@ -568,14 +593,19 @@ class Hist:
     __slots__ = ("start", "ops", "frames", "steps", "worlds", "world0", "final_rows", "declined", "skipped", "syms")
 
 
-def run_history(loop, start, items, declined=()):
+def run_history(loop, start, items, declined=(), timeout=60):
     """start: dict(role, st, nin, nout, maxres, treq, wasact, wr, prelude=[items]) ; items: list of
-    ("in", sym) | ("send", sym) | ("treq",) | ("disc", ds, lm) | ("raw", frame) | ("op", op[, frame]).
-    Returns Hist (concrete ops, per-step projections from the implementation)."""
+    ("in", sym) | ("send", sym) | ("treq",) | ("disc", ds, lm) | ("raw", frame) | ("op", op[, frame]) | ("set", {..}).
+    Returns Hist (concrete ops, per-step projections from the implementation).  The whole history runs as one
+    coroutine under asyncio.wait_for."""
+    return loop.run_until_complete(asyncio.wait_for(_run_history(start, items, declined), timeout))
+
+
+async def _run_history(start, items, declined):
     ad = Adapter(start.get("role", 2), declined)
     try:
         for it in start.get("prelude", []):
-            _exec_item(ad, loop, it, 0)
+            await _exec_item(ad, it, 0, project=False)
         ad.set_world(st=start.get("st"), role=start.get("role"), nin=start.get("nin"), nout=start.get("nout"),
                      maxres=start.get("maxres"), treq=start.get("treq", "keep"), wasact=start.get("wasact"),
                      lastt=start.get("lastt"), wr=start.get("wr"))
@@ -584,7 +614,7 @@ def run_history(loop, start, items, declined=()):
         h.world0 = ad.world(rows=True)
         h.ops, h.frames, h.steps, h.worlds, h.skipped = [], [], [], [h.world0], 0
         for k, it in enumerate(items):
-            r = _exec_item(ad, loop, it, k)
+            r = await _exec_item(ad, it, k)
             if r is None:
                 h.skipped += 1
                 continue
@@ -599,9 +629,12 @@ def run_history(loop, start, items, declined=()):
         ad.close()
 
 
-def _exec_item(ad, loop, it, k):
+async def _exec_item(ad, it, k, project=True):
     kind = it[0]
     frame = None
+    if kind == "set":
+        ad.set_world(**it[1])
+        return None
     if kind == "in":
         frame = resolve(it[1], ad, k)
         op = frame_to_op(ad, frame, NOW0 + k)
@@ -623,12 +656,42 @@ def _exec_item(ad, loop, it, k):
         frame = it[2] if len(it) > 2 else (frame_of_op(op) if op[0] == 0 else None)
     else:
         raise ValueError(it)
-    step, w = ad.run_op(loop, op, frame)
+    step, w = await ad.run_op(op, frame, project=project)
     return op, frame, step, w
 
 
 def model_lines(hists):
     return [sx_request(h.world0, h.ops, h.declined) for h in hists]
+
+
+def model_batch(model, hists):
+    """Evaluate the model on many histories; histories with the same configuration and start world share one
+    request (form [1, cfg, world, [ops, ...]] of SessionRun.v).  Returns one result per history."""
+    groups, order = {}, []
+    for idx, h in enumerate(hists):
+        cfg = "[%s,%s,%s,%s,[%s]]" % (sx(BEGIN), sx(SENDER), sx(TARGET), sx(TIME), ",".join(str(d) for d in h.declined))
+        key = (cfg, sx_world(h.world0))
+        if key not in groups:
+            groups[key] = []
+            order.append(key)
+        groups[key].append(idx)
+    lines, chunks = [], []
+    for key in order:
+        idxs = groups[key]
+        for lo in range(0, len(idxs), 200):
+            part = idxs[lo:lo + 200]
+            lines.append("[1,%s,%s,[%s]]" % (key[0], key[1], ",".join("[%s]" % ",".join(sx_op(o) for o in hists[i].ops) for i in part)))
+            chunks.append(part)
+    res = model.batch(lines)
+    out = [None] * len(hists)
+    for part, r in zip(chunks, res):
+        if not isinstance(r, list) or len(r) != len(part):
+            for i in part:
+                out[i] = r
+        else:
+            for i, x in zip(part, r):
+                out[i] = x
+    return out
 
 
 def compare(h, mres):
